@@ -138,7 +138,19 @@ fn similar_names_library(r: &mut Rng) -> Vec<(String, String)> {
             for t in chosen.iter().chain(std::iter::once(&"gone/x")) {
                 if r.chance(2, 3) {
                     let url = md::rel_url(t, &dir);
-                    text.push_str(&format!("[old text]({})\n\n", url));
+                    // the written text: unrelated, or what the target's title would be in another letter case (a
+                    // title is refreshed unless it is *exactly* there already), as block reference and inside a paragraph
+                    let would_be = format!("Title of {}", t.replace('/', " "));
+                    let written = match r.below(4) {
+                        0 => would_be.to_uppercase(),
+                        1 => would_be.to_lowercase(),
+                        _ => "old text".to_string(),
+                    };
+                    if r.chance(1, 3) && dir.is_empty() {
+                        text.push_str(&format!("see [{}]({}) in a sentence\n\n", written, url));
+                    } else {
+                        text.push_str(&format!("[{}]({})\n\n", written, url));
+                    }
                 }
             }
             (k.to_string(), text)
